@@ -136,7 +136,7 @@ func attribute(chain []v1.Transform, start any) (key, what string) {
 	return "", ""
 }
 
-func runLawCase(c *kit.Ctx, name string, r *rand.Rand, st stats) {
+func runLawCase(c sink, name string, r *rand.Rand, st stats) {
 	var start any
 	var chain []v1.Transform
 	rt := ""
